@@ -34,7 +34,7 @@ Print Assumptions c44_stale_flush_fails_and_changes_nothing_guarded.
 Theorem c44_stale_multi_delete_refuted :
   exists s i, reach false true false no_eoc Z.succ rows12 s /\ stale_del s i /\ n_dels s i = 2%nat /\
     snd (step false true false no_eoc Z.succ i Commit s) = ROk /\
-    lookup 1 (com (sdb (fst (step false true false no_eoc Z.succ i Commit s)))) = Some {| rx := 5; rv := 2 |}.
+    lookup 1 (com (sdb (fst (step false true false no_eoc Z.succ i Commit s)))) = Some {| rx := (5, 0); rv := 2 |}.
 Proof. exact main_multi_delete_refuted. Qed.
 Print Assumptions c44_stale_multi_delete_refuted.
 
@@ -103,10 +103,10 @@ Example c44_ex_database_refuses :
   snd (step false true true no_eoc Z.succ 0 Commit (run false true true no_eoc Z.succ w_busy (init rows12))) = RBusy.
 Proof. exact busy_example. Qed.
 Example c44_ex_successful_update :
-  let s := run false true true no_eoc Z.succ [(0%nat, SetX 1 7)] (init rows12) in
+  let s := run false true true no_eoc Z.succ [(0%nat, SetX 1 false 7)] (init rows12) in
   snd (step false true true no_eoc Z.succ 0 Commit s) = ROk /\
-  In (1, {| ex := 0; ev := 1; epend := Some 7; edel := false |}) (sents (sget 0 (sss s))) /\
-  com (sdb (fst (step false true true no_eoc Z.succ 0 Commit s))) = [(1, {| rx := 7; rv := 2 |}); (2, {| rx := 0; rv := 1 |})].
+  In (1, {| ex := (0, 0); ev := 1; epend := Some (7, 0); edel := false |}) (sents (sget 0 (sss s))) /\
+  com (sdb (fst (step false true true no_eoc Z.succ 0 Commit s))) = [(1, {| rx := (7, 0); rv := 2 |}); (2, {| rx := (0, 0); rv := 1 |})].
 Proof. exact ok_example. Qed.
 Example c44_ex_generator : forall v, v < Z.succ v.
 Proof. exact succ_increasing. Qed.
